@@ -317,6 +317,10 @@ let op_logline opidx impl toks =
             (match f.rl_user with
              | Some u -> Printf.sprintf "%s for user %s%s%s from srv-name%s to cl-name (10.0.0.1)%s\n" (type_name rcode) (s u) (s f.rl_station) (s f.rl_cui) (s f.rl_replymsg) (s f.rl_operator)
              | None -> Printf.sprintf "%s (response to %s) from srv-name to cl-name (10.0.0.1)\n" (type_name rcode) (type_name qcode))
+          else if rcode = 1 then
+            (* no answer: the same user field as in the reply lines (what printf makes of a NULL string is "(null)") *)
+            Printf.sprintf "missing response to Access-Request for user %s%s from cl-name (10.0.0.1) to srv-name\n"
+              (match f.rl_user with Some u -> s u | None -> "(null)") (s f.rl_station)
           else ""
         end else
           Printf.sprintf "F-TICKS/eduroam/1.0#REALM=%s#VISCOUNTRY=SE#%sCSI=%s#RESULT=%s#\n" (s (fticks_realm rq))
@@ -327,7 +331,20 @@ let op_logline opidx impl toks =
            let l = bytes_of_hex h in
            (* no control character, no second line *)
            let body = match List.rev l with x :: r when int_of_n x = 10 -> List.rev r | _ -> l in
-           spec opidx "C18_line_printable" (all_printable body) ""
+           spec opidx "C18_line_printable" (all_printable body) "";
+           (* with LogFullUsername off nothing of the User-Name before the '@' may appear *)
+           if kind = "reply" && logfull = "0" then begin
+             let line = string_of_bytes body in
+             let key = "for user " in
+             let rec find i = if i + String.length key > String.length line then None
+               else if String.sub line i (String.length key) = key then Some (i + String.length key) else find (i + 1) in
+             match find 0 with
+             | Some j ->
+                 let e = try String.index_from line j ' ' with Not_found -> String.length line in
+                 let u = String.sub line j (e - j) in
+                 spec opidx "C18_username_hidden" (u = "(null)" || (String.length u > 0 && u.[0] = '@')) u
+             | None -> ()
+           end
        | _ -> ())
   | _ -> ()
 
